@@ -25,6 +25,7 @@ def work(plan):
         rec['build_error'] = repr(em0.err)
         return rec
     params = param_names(plan, ctx0, em0)
+    rec['params'] = sorted(params)
     for order in orders[1:]:
         rec['orders'] += 1
         ctx = Z.build(plan, order=order)
@@ -116,7 +117,7 @@ def run(tier, seed):
                 key = finding_key(plan, ob)
                 chk.violation(key, 'topology %s, order %s: %s %s' % (rec['plan'], ob['order_keys'], ob['what'], ob.get('structural', '')),
                               REPLAY % dict(plan=rec['plan'], order=ob['order'], cex=ob.get('cex'), side=ob.get('side', 'B'),
-                                            var=ob.get('var'), params=[]))
+                                            var=ob.get('var'), params=rec.get('params', [])))
     chk.counters['permuted_builds'] = n_orders
     chk.exhaustive = True
     return chk.finish()
